@@ -28,6 +28,14 @@ Clauses(r) ==
     [] r.op = "chain.wif" -> << <<"C13:wif-under-selected-chain", r.out.k = "ret" /\ r.out.text = WifResult(chain, r.in.secret, r.in.compressed)>> >>
     [] r.op = "chain.ports" -> << <<"C19:rpc-port-under-selected-chain", r.out.rpc = RpcPortResult(chain)>>,
                                   <<"C18:p2p-port-under-selected-chain", r.out.p2p = P2PPortResult(chain)>> >>
+    [] r.op = "chain.genesis" ->
+         << <<"X:genesis-block-of-selected-chain", r.out.block = Genesis(chain)>>,
+            <<"X:genesis-hash-is-published", Rev(r.out.hash) = PublishedGenesisHash(chain)>>,
+            <<"X:coreparams-agree", r.out.core_same>>,
+            <<"X:halving-interval", r.out.halving = HalvingInterval(chain)>>,
+            <<"X:max-money", r.out.max_money = BnToLE(MaxMoney, 8)>>,
+            <<"C16:genesis-checkblock-under-selected-chain",
+              (r.out.check_other.k = "ret") = CheckBlock(chain, Genesis(r.in.other), 1700000000, TRUE, TRUE)>> >>
     [] OTHER -> << <<"unknown-op", FALSE>> >>
 TraceInit == l = TraceStart /\ chain = "mainnet" /\ last = [op |-> "init"]
 TraceNext ==
